@@ -18,7 +18,8 @@ REQUIRED_MONITORS = ('result_vs_fresh_map', 'shadow_comparison', 'rejection')
 REQUIRED_CLASSES = ('call:through-a-copy-of-the-map', 'poke:edit-equivalences', 'poke:reassign-scale', 'reference:exactly-collinear-anchors', 'reject:other-residue-boundaries', 'mutate-construction:renumber', 'op:call', 'op:call-repeat', 'op:reject', 'op:mutate-ref', 'op:mutate-target', 'op:mutate-result',
                     'op:mutate-argument', 'multi-residue', 'shipped-pair', 'reject:other-atom-names', 'reject:non-molecule',
                     'call-after-reject', 'call-after-mutation', 'mutate-argument:partial', 'mutate-argument:rotate-about-own-atom',
-                    'reject:same-foreign-object-again')
+                    'reject:same-foreign-object-again', 'map:made-by-an-alignment',
+                    'history:construction-molecule-changed-before-first-use')
 RULE = ('histories of up to 30 operations over {call(arg from a pool of 6 conformations), reject(foreign argument), '
         'mutate(construction reference|target), mutate(earlier result), mutate(earlier argument)} on one map; reference '
         '>= 3 atoms (generated trees/graphs, multi-residue, shipped CUR/VTE pairs). Non-trivial history: >= 3 distinct '
@@ -189,7 +190,19 @@ def run_case(ctx, case):
     P_ref, P_tgt = refm.deep_copy(), tgtm.deep_copy()
     tgt_names = [a.name for a in tgtm]
     tgt_resnames = [a.resname for a in tgtm]
-    emap = ExchangeMap(refm, tgtm, s)
+    via_alignment = (i % 3 == 2)
+    if via_alignment:
+        # the map made for a pair held by an Alignment (what Manager.calculate_exchange_maps does for every species): the
+        # construction molecules are the alignment's own start and end, which the user keeps working with
+        from gaddlemaps import Alignment
+        ali = Alignment(refm, tgtm)
+        refm, tgtm = ali.start, ali.end
+        P_ref, P_tgt = refm.deep_copy(), tgtm.deep_copy()
+        ali.init_exchange_map(s)
+        emap = ali.exchange_map
+        ctx.hit('map:made-by-an-alignment')
+    else:
+        emap = ExchangeMap(refm, tgtm, s)
     inv0 = None
     if hasattr(emap, '_target_coordinates') and hasattr(emap, '_equivalences'):
         inv0 = ({k: np.array(v, copy=True) for k, v in emap._target_coordinates.items()}, dict(emap._equivalences))
@@ -240,6 +253,10 @@ def run_case(ctx, case):
             int(rng.choice(7, p=[.4, .15, .1, .1, .1, .1, .05]))]
         if op == 'mutate-result' and not results:
             op = 'call'
+        if step == 0 and i % 2 == 0:
+            # every other history begins by changing a construction molecule, before the map was ever used
+            op = ['mutate-ref', 'mutate-target'][(i // 2) % 2]
+            ctx.hit('history:construction-molecule-changed-before-first-use')
         if op == 'call':
             k = int(rng.integers(0, len(pool)))
             if history and history[-1][0] in ('call', 'mutate-argument') and rng.random() < 0.5:
